@@ -50,6 +50,7 @@ type FuncContract struct {
 	LoopMod   map[int][]SExpr
 	CallAsserts []*Clause
 	CallForget  []ForgetSpec
+	CancellableParam string // the parameter that is the lifetime context (goroutine roots)
 	Cancellable  bool // effect contract audited for C14: every blocking channel operation can be abandoned on cancellation
 	AllocCounter bool // allocation represented as a counter (scalar monotonicity) instead of a set
 	Inline    bool // expand body at call sites instead of using the contract
@@ -408,6 +409,7 @@ func (cs *Contracts) parseFile(file, pkg string) error {
 			cur.AllocCounter = true
 		case "cancellable":
 			cur.Cancellable = true
+			cur.CancellableParam = strings.TrimSpace(rest)
 		case "inline":
 			cur.Inline = true
 		case "safe":
